@@ -27,7 +27,8 @@ theorem C03_invariant :
   intro S p h
   have h1 := parseStep_sqlInv E h.1 p
   have h2 := parseStep_taxo E h.1 p
-  unfold step
+  unfold step stepG
+  rw [show parseStepG E true S p = parseStep E S p from rfl]
   split
   · rename_i S1 e heq
     rw [heq] at h1 h2
@@ -54,8 +55,8 @@ theorem C03_output (S : State) (p : Program) (h : Inv E lit0 S) :
     (step E S p).2 = specOut E lit0 p := by
   have hout := parseStep_out E h.1 (⟨rfl, rfl⟩ : SqlInv (init lit0).sql) p
   have h2 := parseStep_taxo E h.1 p
-  unfold step specOut
-  rw [← hout]
+  unfold step stepG specOut
+  rw [show parseStepG E true S p = parseStep E S p from rfl, ← hout]
   split
   · rename_i S1 e heq
     rw [heq]
@@ -88,8 +89,8 @@ theorem C03_hash_state (S : State) (p : Program) (reprs : List Name) (h : Inv E 
     (hp : p.parsed = .tree reprs) :
     (step E S p).1.hash = (HashState.reset.callAll reprs).1 := by
   have hcr := create_of_inv h.1
-  unfold step parseStep
-  simp only [hp]
+  unfold step stepG parseStepG
+  simp only [hp, if_true]
   cases hr : p.regexLabels (HashState.reset.callAll reprs).2 with
   | error e => rfl
   | ok labels0 =>
@@ -100,6 +101,32 @@ theorem C03_hash_state (S : State) (p : Program) (reprs : List Name) (h : Inv E 
     rw [hq]
     rfl
 
+/-! ### The hash reset is a real obligation -/
+
+def exEngines : Engines :=
+  { queries := [], derive := fun _ _ _ => [], looksLikeTaxon := fun _ => false,
+    compiled := fun _ => [], assemble := fun _ => [] }
+
+/-- a program with one expression `2` -/
+def progQ : Program := { parsed := .tree [[50]], lines := 1, regexLabels := fun _ => .ok [] }
+
+/-- a program with one expression `1`, and a feature whose label shows the identifier the expression
+got (as the regex features matching `_hash=` lines of the flat AST can) -/
+def progP : Program :=
+  { parsed := .tree [[49]], lines := 1, regexLabels := fun vs => .ok [{ name := vs, spans := [] }] }
+
+/-- **Without `pseudo_hash.reset()` the property fails.** If `flatten_ast` did not reset the counter
+(`resets = false`: expressions hashed from the counter and cache left by the previous program), the
+tags of `progP` after `progQ` would differ from its tags in a fresh process (identifier 2 instead of 1).
+So `C03_independent` / `C03_history` — proved for the code as written, `resets = true` — do depend on
+the line flatten_ast.py:369: removing it falsifies them. -/
+theorem C03_no_reset_breaks :
+    (stepG exEngines false (stepG exEngines false (init []) progQ).1 progP).2 ≠
+      (stepG exEngines false (init []) progP).2 ∧
+    (stepG exEngines true (stepG exEngines true (init []) progQ).1 progP).2 =
+      (stepG exEngines true (init []) progP).2 := by
+  decide
+
 /-- **Why the invariant matters.** In a state where the table `t` was left behind (what a leak between
 programs would be), every later parsed program fails with `OperationalError` ("table t already
 exists"): the boundary invariant is exactly what makes the outputs state-independent. -/
@@ -107,8 +134,8 @@ theorem C03_leak_breaks (S : State) (p : Program) (reprs : List Name) (rows labe
     (ht : S.sql.t = some rows) (hp : p.parsed = .tree reprs)
     (hr : p.regexLabels (HashState.reset.callAll reprs).2 = .ok labels0) :
     (step E S p).2 = .error operationalError := by
-  unfold step parseStep
-  simp only [hp, hr, SqlState.create, ht]
+  unfold step stepG parseStepG
+  simp only [hp, if_true, hr, SqlState.create, ht]
 
 /-- **C03 (collection).** In a collection, the record of a program is a function of the program itself
 (path, stored source, the labels its own text gets — `C03_history`) and of *which of the module names
